@@ -1595,7 +1595,13 @@ class Parameter(_ParameterBase):
                     obj._param__private = _InstancePrivate(
                         explicit_no_refs=type(obj)._param__private.explicit_no_refs
                     )
-                _old = obj._param__private.values.get(name, self.default)
+                if name in obj._param__private.values:
+                    _old = obj._param__private.values[name]
+                else:
+                    # As in __get__, the value shown so far is the default of
+                    # the class Parameter (self may be an instance-level copy
+                    # whose default predates a class-level assignment)
+                    _old = inspect.getattr_static(type(obj), name, self).default
                 obj._param__private.values[name] = val
         self._post_setter(obj, val)
 
